@@ -5,7 +5,7 @@
    tree grammar, its spelling as structured lines and the pre-token tree / HTML expected
    from it.  Nothing here uses the tokenizer. *)
 From Coq Require Import ZArith List Bool Lia.
-From Mistletoe Require Import Base.Sx Base.PyStr Base.PyText Model.Block Proofs.ListLaw Proofs.MixPhrases.
+From Mistletoe Require Import Base.Sx Base.PyStr Base.PyText Model.Block Proofs.ListLaw Proofs.MixPhrases Proofs.ProseLines Proofs.HardBreaks Proofs.BreakBlocks.
 Import ListNotations.
 Local Open Scope Z_scope.
 
@@ -20,7 +20,8 @@ Inductive ftree :=
 | FEm (c0 : Z) (pre : str) (ch : Z) (double : bool) (w post : str)    (* a one-line paragraph: c0 :: pre, a run of ch, w, the run again, post *)
 | FLink (c0 : Z) (pre w dest post : str)                             (* a one-line paragraph: c0 :: pre, [w](dest), post *)
 | FSent (c0 : Z) (t0 : str) (gs : list mseg)                         (* a one-line paragraph: c0 :: t0, then emphasised phrases and links in any order, each with the text after it *)
-| FTick (c0 : Z) (pre code post : str).                              (* a one-line paragraph: c0 :: pre, `code`, post - the code of any characters but backticks and regex triggers *)
+| FTick (c0 : Z) (pre code post : str)
+| FBrk (c : Z) (body : str) (k : nat) (more : list (str * nat)).                              (* a one-line paragraph: c0 :: pre, `code`, post - the code of any characters but backticks and regex triggers *)
 
 (* the text of an FEm line after its first character *)
 Definition em_run (ch : Z) (double : bool) : str := if double then [ch; ch] else [ch].
@@ -66,6 +67,7 @@ Fixpoint spell (t : ftree) : list sline :=
   | FLink c0 pre w dest post => [SLine 0 c0 (link_body pre w dest post)]
   | FSent c0 t0 gs => [SLine 0 c0 (t0 ++ mbody gs)]
   | FTick c0 pre code post => [SLine 0 c0 (tick_body pre code post)]
+  | FBrk c body k more => map (fun l => SLine 0 (hd 0 l) (tl l)) (brk_lines ((c :: body, k) :: more))
   end.
 Definition spell_seq (ts : list ftree) : list sline := join_blank (map spell ts).
 Definition text_of (ls : list sline) : list str := map render_line ls.
@@ -106,6 +108,7 @@ Section Mode.
     | FLink c0 pre w dest post => PParagraph ln [c0 :: link_body pre w dest post ++ [10]]
     | FSent c0 t0 gs => PParagraph ln [c0 :: (t0 ++ mbody gs) ++ [10]]
     | FTick c0 pre code post => PParagraph ln [c0 :: tick_body pre code post ++ [10]]
+    | FBrk c body k more => PParagraph ln (nl_lines (brk_lines ((c :: body, k) :: more)))
     end.
   Fixpoint pre_seq (ln : Z) (ts : list ftree) : list pre :=
     match ts with
@@ -117,7 +120,7 @@ End Mode.
 (* Paragraph.parse_setext after the block *)
 Fixpoint st_after (st : pstate) (t : ftree) : pstate :=
   match t with
-  | FPara _ _ _ | FFence _ _ _ | FHead _ _ _ | FRule _ _ | FEm _ _ _ _ _ _ | FLink _ _ _ _ _ | FSent _ _ _ | FTick _ _ _ _ => st
+  | FPara _ _ _ | FFence _ _ _ | FHead _ _ _ | FRule _ _ | FEm _ _ _ _ _ _ | FLink _ _ _ _ _ | FSent _ _ _ | FTick _ _ _ _ | FBrk _ _ _ _ => st
   | FQuote _ => mkPs true
   | FItem _ _ ts => fold_left st_after ts st
   | FMore _ _ ts _ next => st_after (fold_left st_after ts st) next
@@ -126,7 +129,7 @@ Definition st_seq (st : pstate) (ts : list ftree) : pstate := fold_left st_after
 
 Fixpoint depth (t : ftree) : nat :=
   match t with
-  | FPara _ _ _ | FFence _ _ _ | FHead _ _ _ | FRule _ _ | FEm _ _ _ _ _ _ | FLink _ _ _ _ _ | FSent _ _ _ | FTick _ _ _ _ => 0%nat
+  | FPara _ _ _ | FFence _ _ _ | FHead _ _ _ | FRule _ _ | FEm _ _ _ _ _ _ | FLink _ _ _ _ _ | FSent _ _ _ | FTick _ _ _ _ | FBrk _ _ _ _ => 0%nat
   | FQuote ts | FItem _ _ ts => S (fold_right (fun t m => Nat.max (depth t) m) 0%nat ts)
   | FMore _ _ ts _ next => Nat.max (S (fold_right (fun t m => Nat.max (depth t) m) 0%nat ts)) (depth next)
   end.
